@@ -11,7 +11,7 @@ EXTRACT = ("theories/Extract/XC08.v", "c08",
            ["entry_fill", "entry_fill_bl", "entry_fill_eq", "entry_check", "entry_spec"])
 PYX = {"_cpmorphology2.pyx": ["fill_labeled_holes_loop"]}
 RULE = ("corpus of hand-drawn scenes (bullseyes, shared holes, multi-parent clusters, split labels) first; every "
-        "image of a small shape over a small label alphabet (quick: all 3x3 over {0,1,2} and all 2x4 over {0,1,2,3}; "
+        "image of a small shape over a small label alphabet (quick: all 3x3 over {0,1,2} and all 2x3 over {0,1,2,3}; "
         "thorough: all 3x4 over {0,1,2} = 531441 and all 3x3 over {0,1,2,3}) in batches of 48; random label images "
         "(shapes skewed to 1xN/Nx1/small, noise labels at several densities, nested rings, blobs relabelled by "
         "connected component, split and absent label numbers, many labels, multi-parent corridors) in bool/uint8/"
@@ -119,7 +119,7 @@ def generate(ctx):
                 with open(os.path.join(cdir, name)) as f:
                     c = json.load(f)
                 cases.append({"k": "one", "lab": c["lab"], "dt": c.get("dt", "int64")}); ctx.count("corpus")
-    sweeps = ctx.n([(3, 3, 3), (2, 4, 4)], [(3, 4, 3), (3, 3, 4)])
+    sweeps = ctx.n([(3, 3, 3), (2, 3, 4)], [(3, 4, 3), (3, 3, 4)])
     for H, W, K in sweeps:
         total = K ** (H * W)
         for s in range(0, total, BATCH):
